@@ -26,6 +26,7 @@ GCfgThree == {Cfg(3, rsf, FALSE, TRUE, "none", 24, 8, <<>>, RootName, -1, FALSE)
 GCfgOneThree == GCfgOne \cup GCfgThree
 GCfgCache == {Cfg(ns, FALSE, FALSE, rna, c, 16, 8, <<S1>>, Dom, -1, FALSE) : ns \in {1, 2}, rna \in BOOLEAN, c \in {"simple", "lru"}}
 GCfgCache1 == {Cfg(1, FALSE, FALSE, rna, c, 16, 8, <<S1>>, Dom, -1, FALSE) : rna \in BOOLEAN, c \in {"simple", "lru"}}
+GCfgClass == {Cfg(1, FALSE, FALSE, TRUE, c, 16, 8, <<>>, RootName, -1, FALSE) : c \in {"simple", "lru"}}
 GCfgClock == {Cfg(2, TRUE, FALSE, TRUE, "none", 16, 8, <<>>, RootName, -1, FALSE)}
 (* search-list / ndots shapes *)
 GCfgSearch == {Cfg(1, FALSE, FALSE, TRUE, "none", 16, 8, sl, dm, nd, usd) :
@@ -35,11 +36,16 @@ GCfgAll == {Cfg(ns, rsf, tcp, rna, c, lt[1], lt[2], sl, Dom, nd, usd) :
                ns \in 1..3, rsf \in BOOLEAN, tcp \in BOOLEAN, rna \in BOOLEAN, c \in {"none", "simple", "lru"},
                lt \in {<<16, 8>>, <<80, 32>>, <<48, 48>>, <<40, 3>>}, sl \in {<<>>, <<S1>>, <<S1, S2>>}, nd \in {-1, 2}, usd \in BOOLEAN}
 
-GReqRel == {[qname |-> <<"www">>, search |-> "true", life |-> 0]}
-GReqAbs == {[qname |-> <<"www", "s1", "">>, search |-> "none", life |-> 0]}
+Req(q, sf, lf, qt, qc) == [qname |-> q, search |-> sf, life |-> lf, qtype |-> qt, qclass |-> qc]
+GReqRel == {Req(<<"www">>, "true", 0, "A", "IN")}
+GReqAbs == {Req(<<"www", "s1", "">>, "none", 0, "A", "IN")}
 GReqBoth == GReqRel \cup GReqAbs
-GReqSearch == {[qname |-> q, search |-> s, life |-> 0] : q \in {<<"www">>, <<"www", "sub">>, <<"www", "s1", "">>}, s \in {"none", "true", "false"}}
-GReqAll == GReqSearch \cup {[qname |-> <<"www">>, search |-> "true", life |-> 8], [qname |-> <<"a", "b", "c">>, search |-> "true", life |-> 0]}
+GReqSearch == {Req(q, sf, 0, "A", "IN") : q \in {<<"www">>, <<"www", "sub">>, <<"www", "s1", "">>}, sf \in {"none", "true", "false"}}
+(* the question's class and type: same and different names x {IN, CH} x {A, TXT} *)
+GReqClass == {Req(q, "none", 0, qt, qc) : q \in {<<"www", "s1", "">>, <<"ftp", "s1", "">>}, qt \in {"A", "TXT"}, qc \in {"IN", "CH"}}
+GReqAll == GReqSearch \cup {Req(<<"www">>, "true", 8, "A", "IN"), Req(<<"a", "b", "c">>, "true", 0, "A", "IN")}
+           \cup {Req(<<"www">>, "true", 0, qt, qc) : qt \in {"A", "TXT"}, qc \in {"IN", "CH"}}
+           \cup {Req(<<"www", "s1", "">>, "none", 0, qt, qc) : qt \in {"A", "TXT"}, qc \in {"IN", "CH"}}
 
 GBackoff == <<2, 3, 6, 13, 26, 32>>
 
@@ -50,6 +56,7 @@ GOutFail10(q, qt) == ExcAll \cup RcodeFail
 GOutNx(q, qt) == NxSmall(q, qt) \cup {Exc("Timeout")}
 GOutCache(q, qt) == {Exc("Timeout"), Exc("FormError")} \cup PosSmall(q, qt) \cup NoDataSmall(q, qt) \cup NxSmall(q, qt)
                     \cup {Msg("NOERROR", Chain(q, qt, 0, <<5>>, 0), <<>>), Msg("NOERROR", <<>>, <<>>)}
+GOutClass(q, qt) == PosSmall(q, qt) \cup NoDataSmall(q, qt) \cup NxSmall(q, qt)
 GOutClock(q, qt) == {Exc("Timeout"), Msg("SERVFAIL", <<>>, <<>>), Msg("NOERROR", Chain(q, qt, 0, <<5>>, 5), <<>>)}
 GAdvSmall(t, l) == AdvSmall(t, l)
 GAdvMid(t, l) == AdvMid(t, l)
@@ -63,11 +70,11 @@ MinOf(S) == CHOOSE x \in S : \A y \in S : x <= y
 GInit == Init /\ hist = <<[op |-> "cfg", t0 |-> now] @@ cfg>>
 
 GBegin == /\ nres < MaxRes /\ (nres > 0 => LastOp = "adv")
-          /\ \E r \in Requests : Begin(r.qname, r.search, r.life) /\ H([op |-> "begin", qname |-> r.qname, search |-> r.search, life |-> r.life])
+          /\ \E r \in Requests : Begin(r.qname, r.search, r.life, r.qtype, r.qclass) /\ H([op |-> "begin"] @@ r)
 GAdvance == /\ nres > 0 /\ nres < MaxRes /\ LastOp # "adv"
             /\ \E d \in IdleAdvances : Advance(d) /\ H([op |-> "adv", d |-> d])
 GQuery == /\ nq < MaxQ
-          /\ \E o \in Outcomes(qn, cfg.qtype) : \E d \in Advances(tmo, life) :
+          /\ \E o \in Outcomes(qn, qtype) : \E d \in Advances(tmo, life) :
                 (d < 0 => (backs < MaxBack /\ ~UseCache)) /\ Query(o, d) /\ H([op |-> "out", out |-> o, adv |-> d])
 GInternal == /\ \/ NextRequest \/ RetryTcp \/ GiveUp \/ Rearm \/ Sleep(BackoffTable[backoffIdx])
                 \/ (cur # {} /\ Pick(MinOf(cur))) \/ Expire \/ (now - start >= -TicksPerSec /\ Budget) \/ Finish
@@ -79,12 +86,12 @@ GNext == GBegin \/ GAdvance \/ GQuery \/ GInternal
    enumerated (TLC's simulator computes every successor before picking one, which is
    quadratic waste with some hundred (outcome, advance) pairs per query) *)
 GQuerySim == /\ nq < MaxQ
-             /\ \E o \in {RandomElement(Outcomes(qn, cfg.qtype))} :
+             /\ \E o \in {RandomElement(Outcomes(qn, qtype))} :
                    \E d \in {RandomElement({x \in Advances(tmo, life) : x < 0 => (backs < MaxBack /\ ~UseCache)})} :
                       Query(o, d) /\ H([op |-> "out", out |-> o, adv |-> d])
 GBeginSim == /\ nres < MaxRes /\ (nres > 0 => LastOp = "adv")
              /\ \E r \in {RandomElement(Requests)} :
-                   Begin(r.qname, r.search, r.life) /\ H([op |-> "begin", qname |-> r.qname, search |-> r.search, life |-> r.life])
+                   Begin(r.qname, r.search, r.life, r.qtype, r.qclass) /\ H([op |-> "begin"] @@ r)
 GInitSim == /\ cfg = RandomElement(Configs) /\ now \in StartTimes /\ InitRest
             /\ hist = <<[op |-> "cfg", t0 |-> now] @@ cfg>>
 GNextSim == GBeginSim \/ GAdvance \/ GQuerySim \/ GInternal
